@@ -237,6 +237,8 @@ class WcMachine(Machine):
         if r < 0.56:
             if slot["kind"] == "wc":
                 return dict(op="wc_set_limit", t=t, k=w.choice([0, 1, 2, 3, 5, 16, 30, -1, 31]))
+            if slot["kind"] == "addr" and slot["cls"] == "Address":
+                return dict(op="addr_set_limit", t=t, k=w.choice([0, 1, 2, 3, 5, 16, 30]))
         if r < 0.60:
             return dict(op="set_platform", t=t, p=w.choice(["ios", "nxos"]))
         if slot["kind"] == "wc":
@@ -583,7 +585,20 @@ class WcMachine(Machine):
         if slot["kind"] == "addr":
             if slot["cls"] == "AddressAg":
                 return "noop"  # members change spelling domain with the platform (C02's business)
-            obj.platform = op["p"]
+            k = len(split_mask(slot["mask"])[1])
+            try:
+                obj.platform = op["p"]
+            except NetmaskValueError:
+                # the re-initialisation re-sets the line under a limit lowered meanwhile
+                if k <= slot["limit"]:
+                    self._fail("C05.reject-iff", f"Address.platform re-set rejected k={k} "
+                                                 f"limit={slot['limit']}")
+                self.slots[i] = None  # torn by the aborted re-initialisation: discarded
+                self.probes["addr_platform_rejected_over_limit"] += 1
+                return "NetmaskValueError"
+            if k > slot["limit"]:
+                self._fail("C05.reject-iff", f"Address.platform re-set accepted k={k} over the "
+                                             f"limit {slot['limit']}")
             slot["plat"] = op["p"]
             self._check_addr(obj, slot, f"after platform={op['p']}")
             return "ok"
@@ -778,6 +793,15 @@ class WcMachine(Machine):
         self._check_grp(slot["obj"], slot, "group query")
         slot["queried"] = True
         slot["cleared_since_q"] = False
+        return "ok"
+
+    def _op_addr_set_limit(self, op):
+        """Address.max_ncwb is a public attribute; it governs the next line assignment."""
+        i, slot = self._slot(op["t"])
+        if slot is None or slot["kind"] != "addr":
+            return "noop"
+        slot["obj"].max_ncwb = op["k"]
+        slot["limit"] = op["k"]
         return "ok"
 
     def _op_addr_query(self, op):
